@@ -104,13 +104,14 @@ def toSample (s : Bytes) : Bytes :=
         out ++ put32 (n % U32) ++ slice s c.pos (c.pos + n)
       | none => out) []
 
-/-- `ConvertSampleToByteStream` (cursor is a `uint32`) -/
+/-- `ConvertSampleToByteStream` (checked `int` cursor: a length field pointing beyond the sample ends the walk) -/
 def toByteStream : Nat → Bytes → Nat → Bytes
   | 0, s, _ => s
   | fuel + 1, s, pos =>
-    if pos < s.length % U32 then
+    if pos + 4 ≤ s.length then
       let n := be32 s pos
-      toByteStream fuel (patch4 s pos [0, 0, 0, 1]) ((pos + n + 4) % U32)
+      let s' := patch4 s pos [0, 0, 0, 1]
+      if n > s.length - (pos + 4) then s' else toByteStream fuel s' (pos + 4 + n)
     else s
 
 /-- `GetNalusFromSample`: `none` = error return -/
@@ -119,11 +120,11 @@ def nalusFromSample (s : Bytes) : Option (List Bytes) :=
   let rec go : Nat → Nat → List Bytes → Option (List Bytes)
     | 0, _, acc => some acc
     | fuel + 1, pos, acc =>
-      if pos < (s.length - 4) % U32 then
+      if pos + 4 < s.length then
         let n := be32 s pos
-        let pos1 := (pos + 4) % U32
-        if (pos1 + n) % U32 > s.length then none
-        else go fuel ((pos1 + n) % U32) (acc ++ [slice s pos1 (pos1 + n)])
+        let pos1 := pos + 4
+        if n > s.length - pos1 then none
+        else go fuel (pos1 + n) (acc ++ [slice s pos1 (pos1 + n)])
       else some acc
   go (s.length + 1) 0 []
 
@@ -218,12 +219,14 @@ def naluTypes (c : Codec) (stopAtVideo : Bool) (s : Bytes) : List Nat :=
   let rec go : Nat → Nat → List Nat → List Nat
     | 0, _, acc => acc
     | fuel + 1, pos, acc =>
-      if pos < (s.length - 4) % U32 then
+      if pos + 4 < s.length then
         let n := be32 s pos
-        let pos1 := (pos + 4) % U32
+        let pos1 := pos + 4
         let t := c.typeOf (byteAt s pos1)
         let acc' := acc ++ [t]
-        if stopAtVideo ∧ c.isVideo t then acc' else go fuel ((pos1 + n) % U32) acc'
+        if stopAtVideo ∧ c.isVideo t then acc'
+        else if n > s.length - pos1 then acc'          -- length field points beyond the sample
+        else go fuel (pos1 + n) acc'
       else acc
   go (s.length + 1) 0 []
 
@@ -232,25 +235,28 @@ def containsType (c : Codec) (s : Bytes) (t0 : Nat) : Bool :=
   let rec go : Nat → Nat → Bool
     | 0, _ => false
     | fuel + 1, pos =>
-      if pos < (s.length - 4) % U32 then
+      if pos + 4 < s.length then
         let n := be32 s pos
-        let pos1 := (pos + 4) % U32
-        if c.typeOf (byteAt s pos1) = t0 then true else go fuel ((pos1 + n) % U32)
+        let pos1 := pos + 4
+        if c.typeOf (byteAt s pos1) = t0 then true
+        else if n > s.length - pos1 then false
+        else go fuel (pos1 + n)
       else false
-  if s.length < 4 then false else go (s.length + 1) 0
+  go (s.length + 1) 0
 
 /-- `GetParameterSets`: (type, nalu) for the parameter-set types until the first video NALU -/
 def paramSets (c : Codec) (isPS : Nat → Bool) (s : Bytes) : List (Nat × Bytes) :=
   let rec go : Nat → Nat → List (Nat × Bytes) → List (Nat × Bytes)
     | 0, _, acc => acc
     | fuel + 1, pos, acc =>
-      if pos < s.length % U32 then
+      if pos + 4 < s.length then
         let n := be32 s pos
-        let pos1 := (pos + 4) % U32
+        let pos1 := pos + 4
+        if n > s.length - pos1 then acc else
         let t := c.typeOf (byteAt s pos1)
-        if isPS t then go fuel ((pos1 + n) % U32) (acc ++ [(t, slice s pos1 (pos1 + n))])
+        if isPS t then go fuel (pos1 + n) (acc ++ [(t, slice s pos1 (pos1 + n))])
         else if c.isVideo t then acc
-        else go fuel ((pos1 + n) % U32) acc
+        else go fuel (pos1 + n) acc
       else acc
   go (s.length + 1) 0 []
 
